@@ -397,7 +397,7 @@ def cached_modules(server):
 # --------------------------------------------------------------------------------------------
 
 # fixed small universe for the exhaustive part: a -> b -> c, package p with submodule p.s
-A, B_, C, P, S, Z = [1], [2], [3], [4], [4, 5], [6]
+A, B_, C, P, S, Z, Z2 = [1], [2], [3], [4], [4, 5], [6], [8]
 NC, NB, NX = 10, 11, 12
 
 
@@ -406,7 +406,7 @@ def exhaustive_alphabet():
     a reference to a module z that does not exist yet) and a small alphabet of operations."""
     setup = [
         ['W', C, [['D', NC, [20]]]],
-        ['W', B_, [['F', NB, C, NC], ['F', NX, Z, NX], ['F', 7, P, 7]]],
+        ['W', B_, [['S', Z2], ['F', NB, C, NC], ['F', NX, Z, NX], ['F', 7, P, 7]]],
         ['W', A, [['S', B_]]],
         ['W', P, [['I', 5, S], ['D', 13, [22]]]],
         ['W', S, [['S', C], ['D', 14, [23]]]],
@@ -424,6 +424,7 @@ def exhaustive_alphabet():
         ['W', C, [['D', NC, [21]], ['D', 15, []]]],         # rewrite c: new attribute, new name
         ['W', B_, [['F', NB, C, 15], ['S', Z]]],            # rewrite b: re-export something else
         ['W', Z, [['D', NX, [24]]]],                        # create the missing module
+        ['W', Z2, [['D', 17, [25]]]],                       # create the other missing module of the same package
         ['T', A],
         ['W', [4, 7], [['D', 16, []]]],                     # new submodule p.t
     ]
@@ -435,7 +436,7 @@ def exhaustive_alphabet():
 
 
 # ranks witnessing that every disk reachable in the exhaustive part is acyclic (C09_acyclic)
-EXH_RANKS = [[Z, 0], [[4, 7], 0], [[9], 0], [C, 1], [S, 2], [P, 3], [B_, 4], [A, 5]]
+EXH_RANKS = [[Z, 0], [Z2, 0], [[4, 7], 0], [[9], 0], [C, 1], [S, 2], [P, 3], [B_, 4], [A, 5]]
 
 
 def gen_universe(rng):
@@ -554,7 +555,9 @@ def gen_history(rng, maxlen):
     # written in reverse topological order so that from-imports can pick existing names
     for i in range(len(mods) - 1, -1, -1):
         m = mods[i]
-        if m in packages or rng.random() < 0.75:
+        # the last two modules of the order (leaves) are mostly absent at first: their importers run into
+        # several failed lookups, and the leaves are created later in any order
+        if m in packages or rng.random() < (0.3 if i >= len(mods) - 2 else 0.85):
             c = gen_content(rng, mods, i, cur)
             ops.append(['W', m, c])
             cur[tuple(m)] = c
@@ -804,7 +807,7 @@ def run(ctx):
     logging.getLogger('supp').setLevel(logging.CRITICAL)   # "Failed import of ..." is expected noise
     proof_ok = ctx.coq_props()
     cov = ctx.coverage
-    cov['rule'] = ('histories = corpus + every sequence of length <= L over a fixed alphabet of 7 requests, 2 failing requests and 5 edits on a '
+    cov['rule'] = ('histories = corpus + every sequence of length <= L over a fixed alphabet of 7 requests, 2 failing requests and 6 edits on a '
                    'fixed 5-module project + random histories (3-6 modules, 1-2 packages, acyclic import graph, up to 40 ops); '
                    'direct: every request answered by the long-lived project (via supp.server.Server) and by a new Project on '
                    'the same disk must be equal; (I)/(R): Model.Cache answers/fresh_answers evaluated in Coq on the same history '
